@@ -155,6 +155,10 @@ func builtinMathPow(call FunctionCall) Value {
 	// TODO Make sure this works according to the specification (15.8.2.13)
 	x := call.Argument(0).float64()
 	y := call.Argument(1).float64()
+	if math.IsNaN(y) {
+		// math.Pow(1, NaN) is 1, ECMA 262 15.8.2.13 wants NaN for every x.
+		return NaNValue()
+	}
 	if math.Abs(x) == 1 && math.IsInf(y, 0) {
 		return NaNValue()
 	}
@@ -173,7 +177,12 @@ func builtinMathRandom(call FunctionCall) Value {
 
 func builtinMathRound(call FunctionCall) Value {
 	number := call.Argument(0).float64()
-	value := math.Floor(number + 0.5)
+	// number + 0.5 is not exact (0.49999999999999994 + 0.5 == 1), so compare the
+	// fraction instead of adding.
+	value := math.Floor(number)
+	if number-value >= 0.5 {
+		value = math.Ceil(number)
+	}
 	if value == 0 {
 		value = math.Copysign(0, number)
 	}
